@@ -5,7 +5,12 @@ cd "$(dirname "$0")"
 [ -z "$(git -C /repo status --porcelain)" ] || { echo "/repo not clean"; exit 2; }
 missed=0
 for d in seeded/*/; do
-  name=$(basename "$d"); id=$(python3 -c "import json;print(json.load(open('$d/meta.json'))['property'])")
+  name=$(basename "$d")
+  [ -f "$d/meta.json" ] || continue
+  # the check that reports the change: its own property's, unless meta.json names a neighbouring one
+  # (regression_property); a change that is deliberately left uncovered (not_covered) is only listed
+  id=$(python3 -c "import json;m=json.load(open('$d/meta.json'));print('-' if m.get('not_covered') else m.get('regression_property', m['property']))")
+  if [ "$id" = "-" ]; then echo "$name: not covered (documented in meta.json and DESIGN.md)"; continue; fi
   git -C /repo apply "$PWD/$d/patch.diff" || { echo "$name: patch does not apply"; missed=1; continue; }
   ./check "$id" --tier quick > /tmp/seedall_$name.log 2>&1; rc=$?
   git -C /repo checkout -- .
